@@ -10,8 +10,17 @@ CLAIMS = {
  "C01": ("Refinement theorem: every run of a Raft-legal history from an empty directory (any chunk limits, worker progress at any point, no eviction) never panics and leaves the caller observing exactly the reference in-memory log (state, every range read, snapshot iteration); results of write calls agree with the reference log; corollary: chunk limits are invisible. Model tied to the crate by K-seq (lock-step differential histories incl. chunk limits 0/1) and the extracted reference log as direct oracle on the implementation.",
          COMMON_NOTE + "Worker asynchrony inside one call is not exercised here (K-trace does that); journal sizes < 2^64.",
          "Coq refinement proof (simulation invariant over the op list) + differential histories", "DESIGN 5/C01"),
+ "C02": ("Theorems: after a Raft-legal history, flushed with the worker idle, the directory reopens under any other configuration, is left byte-for-byte untouched, and the reopened store observes exactly the reference log and satisfies the C01 simulation invariant again (so it continues with the same semantics); the same for any number of flush+restart cycles under different configurations. Differential histories with 1-4 restarts under redrawn configurations, comparing state, reads, snapshot iteration and raw directory bytes across restarts.",
+         COMMON_NOTE + "Proved for cache limits large enough that replay evicts nothing (reads under cache pressure are C07); restarts in the model happen at worker-idle points (drop waits for the worker, see C14).",
+         "Coq proof (replay-of-the-journal simulation invariant) + differential histories with restarts", "DESIGN 5/C02"),
+ "C04": ("Theorems over the small-step caller/worker/file-system model, for every interleaving, batching, chunk rotation and every sequence of injected write/fdatasync/unlink failures incl. worker death: a callback that reported success implies every journal byte below the journal end at its flush call, in every file still present, is inside that file's synced prefix; synced <= written; callbacks at most once and in request order; exactly once without failures when the worker has caught up. The model is tied to the crate by K-trace: gated schedules at system-call granularity with injected EIO, the recorded global trace must be a run of the model; the same predicates are evaluated directly on the recorded traces.",
+         COMMON_NOTE + "Partial w.r.t. the OS: a successful fdatasync is assumed to make all previously written bytes of that file durable; real schedules are the gated subset, the model's are all.",
+         "Coq invariant proof on a small-step system + trace validation with fault injection", "DESIGN 5/C04"),
  "C06": ("Unconditional theorems: a refused record/write leaves the entire caller-side state identical and produces no effect (hence nothing later can differ); a refused multi-entry append equals appending the accepted prefix; the store refuses exactly what the reference log refuses. Differential histories with 20% refused operations, stat and resident cache set compared before/after every refused call, then flush + restart.",
          COMMON_NOTE, "Coq proof (state equality) + differential histories with refused writes", "DESIGN 5/C06"),
+ "C08": ("Theorems (same small-step model, any interleaving/batching/failures): a chunk file that is gone was requested by a flush whose journal end (behind the purge record) is durable in the files that remain; the files present are always a contiguous run in creation order of the files ever created (oldest-first, no holes); without failures every requested removal is carried out once the worker has caught up; exactly the closed chunks whose closing last id is <= the purge point are requested; under a Raft-legal history every live entry's chunk file exists (between API calls). K-trace with purge-heavy schedules and failures; unlink order checked on traces; snapshots after unlinks cut to their synced bytes must recover a prefix of the history.",
+         COMMON_NOTE + "Partial w.r.t. the OS (fdatasync/unlink durability and ordering assumed). Interpretation: 'holding nothing above the purge point' is read on the chunk's closing last id (what pop_obsolete tests).",
+         "Coq invariant proof on a small-step system + trace validation + crash images after unlinks", "DESIGN 5/C08"),
  "C09": ("Theorems: CRC-32 detects every single altered byte (any length); a single altered byte in a complete record is never accepted as a record of the same length (InvalidData / UnexpectedEof / different-length checksum coincidence); checksum bytes and all fixed fields always give InvalidData; a damaged record not followed only by zeros, or a missing middle chunk, makes open fail with the directory untouched. Two refuted classes are carried as machine-checked witnesses and known findings (length-prefix flip in the newest chunk is absorbed as a torn tail; a refused open truncates an older chunk). Exhaustive byte-flip sweeps on generated images run on implementation and model.",
          COMMON_NOTE + "Partial: a 32-bit checksum coincidence on a shape-changing alteration cannot be excluded by any proof; it is an explicit disjunct of the theorem and evaluated per case in the sweep.",
          "Coq proof (CRC linearity, codec canonical form) + exhaustive single-byte sweeps", "DESIGN 5/C09"),
@@ -23,6 +32,12 @@ CLAIMS = {
  "C12": ("Machine-checked theorems about the Gallina codec (round trip with any tail, canonical form, no over-read, consumed = reported size, every proper prefix of an encoding decodes to UnexpectedEof, totality); tied to the crate by differential encoding/decoding of structured records and a malformed byte stream; the property is also evaluated directly on the implementation.",
          COMMON_NOTE + "Record lengths < 2^32 (the encoder truncates the length with `as u32`, stated as wf_bytes).",
          "Coq proof (codec combinator contract) + differential correspondence", "DESIGN 5/C12"),
+ "C13": ("Theorems on a lock-protocol model (any number of contenders, any interleaving): at most one owner; every chunk-file access is made by the current lock holder; a refused attempt leaves the contender idle and unable to touch a chunk file; after the owner's drop the next attempt succeeds. Tie: races of threads and processes on the real crate (RaftLog and Dump), every flock / LOCK-file / chunk-file system call logged with a system-wide monotonic clock; the global order must be a run of the model and satisfy the property.",
+         COMMON_NOTE + "Partial: the kernel's flock semantics (exclusive per open file description, released by unlock/close) is the model's assumption; real races sample the interleavings.",
+         "Coq proof on a lock-protocol model + multi-process race traces", "DESIGN 5/C13"),
+ "C14": ("Theorems: after drop, once the old worker has finished, no event of that instance changes the directory; and the worker always finishes (the join in drop terminates when no I/O error occurs). Tie: K-trace with the worker held at each remaining system call while the store is dropped (drop must block), then reopen, purge and flush on the new instance.",
+         COMMON_NOTE + "Partial: thread scheduling is replaced by gated schedules; relies on the repair 38c8669 (drop joins the worker, lock released last).",
+         "Coq proof on a small-step system + gated drop/reopen traces", "DESIGN 5/C14"),
  "C15": ("Theorems: in every state reachable by any operations with any arguments (refused writes, truncations, purges, drains, worker progress) the size counter equals the total payload size of the resident entries and keys are distinct; after an accepted append an over-limit cache holds only entries above the boundary in force; after a drain nothing at or below the boundary is resident. Differential histories under tiny cache limits with stat() and the resident set (verif-hooks accessor) after every operation.",
          COMMON_NOTE + "Partial: restarts are covered by a replay lemma whose premise (State records in the journal never lower `last` below a resident key) is not yet discharged from the journal invariant; update_state is excluded (it can install an arbitrary state).",
          "Coq invariant proof + differential histories with resident-set oracle", "DESIGN 5/C15"),
